@@ -301,14 +301,10 @@ func c11KeyEval(e *Env, c c11KeyCase) {
 		e.R.Outcome("unicode key refused")
 		return // refusing the Unicode spelling of a key is allowed
 	}
-	if !a.OK() || !bytes.Equal(normKey(a.Stdout, c.ASCII), normKey(u.Stdout, c.Uni)) {
+	// metadata is echoed as written: read the Unicode spelling in the output as the ASCII one before comparing
+	if !a.OK() || !bytes.Equal(a.Stdout, bytes.ReplaceAll(u.Stdout, []byte(c.Uni), []byte(c.ASCII))) {
 		e.R.Fail(ev.Fail{Class: "C11/output-differs/unicode-accidental-in-key", Msg: fmt.Sprintf("key %s through %s is accepted but does not mean %s: ASCII spelling ok=%v\n--- %s ---\n%s--- %s ---\n%s", c.Uni, c.Door, c.ASCII, a.OK(), c.ASCII, trunc(string(a.Stdout), 400), c.Uni, trunc(string(u.Stdout), 400)), Kind: "key-spelling", Case: c})
 	}
-}
-
-// normKey hides the echoed spelling of the key itself (metadata is echoed as written).
-func normKey(b []byte, key string) []byte {
-	return bytes.ReplaceAll(b, []byte(key), []byte("<KEY>"))
 }
 
 func runC11(e *Env) {
